@@ -350,7 +350,6 @@ func (w *cliWorld) checkC05(final bool) {
 		lastQ = w.qpoints[len(w.qpoints)-1]
 	}
 	fc := w.firstCause()
-	sendFault := w.cEnd.NSendFault > 0
 	for _, op := range w.ops {
 		if op.Invoke < 0 {
 			continue
@@ -407,7 +406,7 @@ func (w *cliWorld) checkC05(final bool) {
 			if _, ok := op.Err.(*jrpc2.Error); ok && w.replyDelivered(op) {
 				continue // an error reply from the peer, matched above
 			}
-			if !stopped && !sendFault {
+			if !stopped && !w.opSendFaulted(op) {
 				r.Fail("wrong-outcome", "%s %d failed with %q although nothing had failed, been closed or cancelled", op.Kind, op.Idx, op.ErrS)
 				return
 			}
@@ -448,7 +447,7 @@ func (w *cliWorld) checkC05(final bool) {
 					r.Fail("wrong-outcome", "Batch %d: response for %s is neither a reply of the peer nor an error", op.Idx, q.Tag)
 					return
 				}
-				if stopped || sendFault {
+				if stopped || w.opSendFaulted(op) {
 					continue
 				}
 				own := ((op.CtxKind == 1 || op.CtxKind == 3 || op.CtxKind == 4) && q.GotCode == int(jrpc2.Cancelled)) || (op.CtxKind == 2 && q.GotCode == int(jrpc2.DeadlineExceeded))
@@ -590,7 +589,28 @@ func (w *cliWorld) transmitted(q *creq) bool {
 	if q.SentSeq < 0 {
 		return false
 	}
-	return w.cEnd.NSendFault == 0
+	return !w.sendFaulted(q.Tag)
+}
+
+// sendFaulted reports whether the Send call that carried the request with this
+// tag reported an injected error (the client then treats it as not sent).
+func (w *cliWorld) sendFaulted(tag string) bool {
+	for _, k := range w.cEnd.FaultedSends {
+		if k-1 < len(w.sent) && strings.Contains(w.sent[k-1].Raw, `"`+tag+`"`) {
+			return true
+		}
+	}
+	return false
+}
+
+// opSendFaulted: the Send of this operation's record failed.
+func (w *cliWorld) opSendFaulted(op *cop) bool {
+	for _, q := range op.Reqs {
+		if w.sendFaulted(q.Tag) {
+			return true
+		}
+	}
+	return false
 }
 
 // C10, client side.
